@@ -94,7 +94,9 @@ func init() {
 			checkSharedFresh(p, shf)
 			run.Sample(checkStaleCopies(p, stale, []string{"curve"}))
 			if id == cfgs[0] {
+				checkSumFolds(run.Rule("DT-sum", "point summation is a left fold of Add over all values that starts from the neutral element and returns the accumulator", 2), &edt.Config{P: p, Mod: modFor(p)})
 				run.Sample(checkAliasing(aliasRule, p, []string{"curve", "curve/scalar", "internal/lattice", "internal/elligator"}))
+				checkAliasSlice(p, run.Rule("ALIAS-slice", "a function with an output *T and a slice of T / *T finishes reading the slice elements before it first writes the output (the output may be one of the elements)", 15), false)
 			}
 			ecfg := &edt.Config{P: p, Mod: modFor(p)}
 			for _, s := range append(c03FormulaSpecs(), c03CompositionSpecs()...) {
